@@ -10,8 +10,8 @@ From Coq Require Import List Ascii Bool Arith ZArith.
 From PV Require Import Replace.
 Import ListNotations.
 
-(* repair switch (stage 1: false): to_yaml of values that are numpy scalars (update_var with numpy values,
-   add_edges_from_matrix) raises RepresenterError; fixes/fix_C15_numpy_yaml.diff converts them to Python numbers *)
+(* repair switch (true since fix D104 = 33837bc): before it, to_yaml of values that are numpy scalars (update_var with numpy
+   values, add_edges_from_matrix) raised RepresenterError; the writer now converts them to Python numbers *)
 Definition fixed_numpy : bool := true.
 Definition dump_representable (fx numpy_values : bool) : bool := fx || negb numpy_values.
 
